@@ -88,6 +88,9 @@ type SPRSpec struct {
 	// ForeignSigner: if >0, records are signed by key ForeignSigner instead of
 	// the declared staker's key (id not bound to the signing key).
 	ForeignSigner int      `json:"foreign_signer,omitempty"`
+	// Extreme sets the price of asset index i (V5 order) in every record to the
+	// given value after offsets and jitter (forged prices: 2^63, 1, ...).
+	Extreme map[int]uint64 `json:"extreme,omitempty"`
 	Bad           []string `json:"bad,omitempty"` // "ver","height","sig","zero","garbage","ext1","ext0","shortid"
 }
 
